@@ -240,6 +240,7 @@ pub fn worker_main(engines: &[&dyn Engine]) -> i32 {
                 write_hashes(&format!("{}.states", prefix), &ctx.states);
                 write_hashes(&format!("{}.pairs", prefix), &ctx.pairs);
                 write_hashes(&format!("{}.plans", prefix), &plans);
+                write_hashes(&format!("{}.cells", prefix), &ctx.cells);
             }
             println!("END");
             let _ = std::io::stdout().flush();
